@@ -19,16 +19,16 @@ import (
 // Env is the process-wide configuration a run starts from ("canonical condition" plus the
 // per-run knobs the tape picks).
 type Env struct {
-	NodePool   bool  // idr node pooling on
-	IDBase     int64 // node ID counter start
-	JSCacheOff bool  // javascript caches disabled
-	XPathCap   int   // capacity of caches.XPathExprCache (0 = default 65536)
-	RegexCap   int
-	JSProgCap  int
+	NodePool    bool  // idr node pooling on
+	IDBase      int64 // node ID counter start
+	JSCacheOff  bool  // javascript caches disabled
+	XPathCap    int   // capacity of caches.XPathExprCache (0 = default 65536)
+	RegexCap    int
+	JSProgCap   int
 	NodeJSONCap int
-	EDIBuf     int    // edi.ReaderBufSize (0 = default 128)
-	UUIDSeed   uint64 // seed of the uuid random source (declaration hashes)
-	KeepGC     bool   // leave the garbage collector on during the run (long runs)
+	EDIBuf      int    // edi.ReaderBufSize (0 = default 128)
+	UUIDSeed    uint64 // seed of the uuid random source (declaration hashes)
+	KeepGC      bool   // leave the garbage collector on during the run (long runs)
 }
 
 // DefaultEnv is everything enabled at defaults.
